@@ -11,6 +11,7 @@ import Check.C09
 import Check.C10
 import Check.C12
 import Check.C13
+import Check.P4
 /-! upfcheck: `upfcheck <property> <trace>` replays every case of the trace through the Lean model
 and the property oracle. Prints one line per problem and a summary. -/
 open Check
@@ -26,6 +27,16 @@ def stateless (f : Nat → String → Verdict) : Checker := ⟨Unit, (), fun _ n
 def sysChecker (tags : List String) : Checker :=
   ⟨Sys.St, {}, fun st n l =>
     let (st', fs) := Sys.step st n l
+    (st', fs.filterMap fun f =>
+      if f.prop = "model" then some (.mismatch f.msg)
+      else if f.prop = "bad" then some (.bad f.msg)
+      else if tags.contains f.prop then some (.oracle s!"[{f.prop}] {f.msg}")
+      else none)⟩
+
+/-- system-level traces on the UP4 datapath -/
+def p4Checker (tags : List String) : Checker :=
+  ⟨P4.St4, {}, fun st n l =>
+    let (st', fs) := P4.step st n l
     (st', fs.filterMap fun f =>
       if f.prop = "model" then some (.mismatch f.msg)
       else if f.prop = "bad" then some (.bad f.msg)
@@ -50,6 +61,10 @@ def checker (prop : String) : Option Checker :=
   | "C13" => some ⟨Sys.St, {}, C13.step⟩
   | "C10" => some ⟨Sys.St, {}, C10.step⟩
   | "C12" => some ⟨Sys.St, {}, C12.step⟩
+  | "C04" => some (p4Checker ["C04", "C01"])
+  | "C15" => some (p4Checker ["C15", "C01"])
+  | "C16" => some (p4Checker ["C16", "C01"])
+  | "P4" => some (p4Checker ["C04", "C15", "C16", "C01", "C02"])
   | "SYS" => some (sysChecker ["C01", "C02", "C03", "C05", "C07", "C14"])
   | _ => none
 
